@@ -332,6 +332,51 @@ theorem specification_completed_operators_is_the_containers_operator_index (cfg 
       rw [hget] at hco
       refine ⟨by rw [d5, hco]; omega, fun hyes => (by rw [hok] at hyes; cases hyes), fun _ => by rw [hco]; omega⟩
 
+/-- **after every tick the operator index is the operator of the next documented demand**: for every `n` below the number of demands whose first `n`
+fit, after `n` ticks of the container the pool creates, `_current_op_idx` is the operator (counted from the front, as the specification labels them) that
+the `(n+1)`-th entry of `ctrDemands` belongs to — operators are completed one after the other, each exactly when its last demand has been consumed. -/
+theorem operator_index_is_the_operator_of_the_next_demand (cfg : Cfg) (w : Store) (cid : Nat) (a : Asg)
+    (hseg : ∀ r ∈ a.ops, w.segsOf r ≠ []) :
+    let c := mkCtr w cid a
+    let ops := a.ops.map (fun r => w.segsOf r)
+    let d := ctrDemands cfg ops (specTicks cfg a.cpu ops)
+    ∀ n cons w' c' cons', n < d.length → (∀ x ∈ d.take n, x.2 ≤ a.ram) → runN cfg n w c cons = .ok (w', c', cons') →
+      c'.curOpIdx = (d.getD n (0, 0)).1 ∧ c'.curOpIdx < a.ops.length := by
+  intro c ops d n cons w' c' cons' hn hfitd h
+  obtain ⟨hf, hc, hp, _, _, hram, hD⟩ := new_container_has_the_documented_demands cfg w cid a
+  have hsegc : ∀ o ∈ c.pos.ops, o.2 ≠ [] := by
+    intro o ho
+    simp only [c, mkCtr, mkPos, List.mem_map] at ho
+    obtain ⟨r, hr, rfl⟩ := ho
+    exact hseg r hr
+  have hD' : (remL cfg c).map (fun x => (ops.length - 1 - x.1, x.2)) = d := hD
+  have hlen : d.length = (remL cfg c).length := by rw [← hD']; simp
+  have hcr : c.ram = a.ram := hram
+  have hfit : ∀ x ∈ (remL cfg c).take n, x.2 ≤ c.ram := by
+    intro x hx
+    rw [hcr]
+    have : (ops.length - 1 - x.1, x.2) ∈ d.take n := by
+      rw [← hD', ← List.map_take]
+      exact List.mem_map.mpr ⟨x, hx, rfl⟩
+    exact hfitd (ops.length - 1 - x.1, x.2) this
+  have hi := run_keeps_idxOK cfg a.ops.length n w c cons w' c' cons' hf hc hp hsegc (by omega) hfit (idxOK_new cfg w cid a hseg) h
+  obtain ⟨r1, _⟩ := run_follows_demands cfg n w c cons w' c' cons' hf hc hp hsegc (by omega) hfit h
+  obtain ⟨k, m, tl, hdrop⟩ : ∃ k m tl, (remL cfg c).drop n = (k, m) :: tl := by
+    cases hd : (remL cfg c).drop n with
+    | nil =>
+      have := congrArg List.length hd
+      simp only [List.length_drop, List.length_nil] at this
+      omega
+    | cons x tl => exact ⟨x.1, x.2, tl, rfl⟩
+  have hk := hi.2.2 k m tl (by rw [r1]; exact hdrop)
+  have hget : ((remL cfg c).getD n (0, 0)).1 = k := by
+    rw [List.getD_eq_getElem?_getD, ← List.head?_drop, hdrop]; rfl
+  have hd : (d.getD n (0, 0)).1 = ops.length - 1 - k := by
+    rw [← hD', relabel_getD_fst _ _ _ (by omega), hget]
+  have hol : ops.length = a.ops.length := by simp [ops]
+  rw [hd, hol]
+  omega
+
 /-- the specification on a small example: two operators (3 I/O ticks growing by g, then 2 CPU ticks at the amount read; then fixed memory),
     success after the summed tick count -/
 example :
